@@ -35,6 +35,10 @@ def row_options(kind, n, flag):
         return None
     if kind == 'dict':
         return {'center_extrema': 'trough', 'threshold_kwargs': dict(S.T0), 'return_samples': not flag}
+    if kind == 'repeat':     # equal (but distinct) dicts in the pattern A, B, A, A, B
+        A = {'center_extrema': 'trough', 'threshold_kwargs': dict(S.T0)}
+        B = {'burst_method': 'amp', 'threshold_kwargs': dict(S.TA0), 'burst_kwargs': {'amp_threshes': (.5, 1.)}}
+        return [copy.deepcopy((A, B, A, A, B)[i % 5]) for i in range(n)]
     if kind == 'alias':      # one dict object repeated for every row
         return [{'center_extrema': 'trough', 'burst_method': 'amp', 'threshold_kwargs': dict(S.TA0),
                  'burst_kwargs': {'amp_threshes': (.5, 1.)}, 'return_samples': not flag}] * n
@@ -76,6 +80,9 @@ def configs(tier):
         for nj in (1, 2, -1, n + 2):
             for flag in (True, False):
                 out.append((n, 'shared', flag, nj, None, 'group', 'virtual'))
+    for n in (4, 5):
+        for nj in (1, 2, 3):
+            out.append((n, 'repeat', True, nj, None, '2d', 'virtual'))
     for n in (1, 2, 3, 4) if q else (1, 2, 3, 4, 5):
         for kind in ('none', 'dict', 'list'):
             for nj in (1, 2, 3):
@@ -97,7 +104,11 @@ def call(entry, sigs, opts, flag, nj, prog):
         # a user edited a nested setting of ANOTHER, unrelated default object before: must not leak into this one
         other = Bycycle(thresholds=dict(S.T0))
         other.find_extrema_kwargs['filter_kwargs']['n_cycles'] = 2
-        bg = BycycleGroup(center_extrema='trough', thresholds=dict(S.T0), return_samples=flag)
+        # constructed with other settings, then the attributes are REBOUND (new objects) before fitting, as in a parameter sweep
+        bg = BycycleGroup(center_extrema='peak', thresholds=dict(S.T1), return_samples=not flag)
+        bg.center_extrema = 'trough'
+        bg.thresholds = dict(S.T0)
+        bg.return_samples = flag
         bg.fit(sigs, FS, FR, axis=0, n_jobs=nj, progress=progress)
         return bg.df_features, bg
 
@@ -159,7 +170,9 @@ class Schedules(Space):
                     got, obj = call(c['entry'], arr(), opts_call, flag, nj, c['progress'])
                     if sched.VirtualPool.constructed == 0:
                         extra['seam_not_exercised'] = 1
-                    elif sched.VirtualPool.log and sched.VirtualPool.log[-1][2] != tuple(order):
+                    if sched.VirtualPool.mismatch:
+                        extra['schedule_not_applicable_task_count_differs'] = 1
+                    elif sched.VirtualPool.log and sched.VirtualPool.log[-1][2] != tuple(order) and not sched.VirtualPool.mismatch:
                         return {'v': 'error', 'msg': 'VirtualPool enacted %s instead of %s' % (sched.VirtualPool.log, order),
                                 'evals': 1, 'traces': 0}
             else:
